@@ -13,7 +13,7 @@ EXPLANATION = (
     '(R3) window invariant: the rolling state is slid by roll(source[pos], source[pos+block_size]) with the pre-increment pos under pos+block_size < len, re-created from '
     'source[pos..pos+block_size] after a match, and the digest looked up is that state\'s; (R4) the weak gate and the confirming lookup query the same table with the same '
     'key and the lookup examines all candidates of the bucket; (R5) skeleton: match => copy + advance one block, miss => one literal + advance one (C01.R2). '
-    'Not decided: the literal-count inequality itself (paper argument from R1-R5 and BLAKE3 collision freeness); the "k + two blocks" corollary.')
+    'R4 also: a path from the weak gate\'s true edge to the next window that passes no strong lookup (a remembered rejection) is not decided. Not decided: the literal-count inequality itself (paper argument from R1-R5 and BLAKE3 collision freeness); the "k + two blocks" corollary.')
 ASSUMPTIONS = ['BLAKE3 collision freeness', 'window length <= 65536']
 
 
